@@ -365,6 +365,143 @@ def _mask_fix(d):
     return dict(d, P=P, kind='rgmask')
 
 
+# ---- size thresholds -----------------------------------------------------------------------------------------------------------
+# blocked / chunked / vectorised kernels change their code path at round sizes: every extent of every nn op (batch, channels in / out,
+# features, spatial extents, kernel, classes, the softmax dim) is put just below, at and just above a power of two while all the other
+# extents stay at 1-2 (the cases stay cheap); forward and EVERY operand gradient go through the ordinary comparison with the model
+SIZE_BASES = [16, 32]                                  # (quick tier; extents of 127+ cost the model driver minutes per case)
+SIZE_ALL = [15, 16, 17, 31, 32, 33, 63, 64, 65]
+
+
+def size_slots():
+    """(op, name of the extent, builder(rng, n) -> (leaves, args)); every leaf requires grad"""
+    import gen_ops as G
+    V = lambda r, sh, kind='any': G.vals(r, sh, kind)
+    L = lambda r, sh, kind='any', rg=True: (sh, V(r, sh, kind), rg)
+    P = show_ints
+    out = []
+    def lin(which):
+        def f(r, n):
+            d = {'batch': r.randint(1, 2), 'in': r.randint(1, 2), 'out': r.randint(1, 2)}; d[which] = n
+            bias = r.chance(.7)
+            return [L(r, (d['batch'], d['in'])), L(r, (d['out'], d['in']))] + ([L(r, (d['out'],))] if bias else []), [int(bias)]
+        return f
+    for w in ('batch', 'in', 'out'): out.append(('linear', w, lin(w)))
+    def c1(which):
+        def f(r, n):
+            d = {'batch': r.randint(1, 2), 'cin': r.randint(1, 2), 'cout': r.randint(1, 2), 'length': r.randint(2, 4), 'kernel': r.randint(1, 2)}; d[which] = n
+            s_, p, dl = (r.randint(1, 2), r.randint(0, 1), 1) if which != 'length' else (r.pick([1, 2, 3, 16]), r.randint(0, 1), r.randint(1, 2))
+            if which == 'kernel': d['length'] = n + r.randint(0, 2); s_, p, dl = 1, r.randint(0, 1), 1
+            bias = r.chance(.7)
+            return ([L(r, (d['batch'], d['cin'], d['length'])), L(r, (d['cout'], d['cin'], d['kernel']))] + ([L(r, (d['cout'],))] if bias else []), [int(bias), s_, p, dl])
+        return f
+    for w in ('batch', 'cin', 'cout', 'length', 'kernel'): out.append(('conv1d', w, c1(w)))
+    def c2(which):
+        def f(r, n):
+            d = {'batch': r.randint(1, 2), 'cin': 1, 'cout': r.randint(1, 2), 'H': r.randint(2, 3), 'W': r.randint(2, 3), 'kh': r.randint(1, 2), 'kw': r.randint(1, 2)}; d[which] = n
+            st, pd = (r.randint(1, 2), r.randint(1, 2)), (r.randint(0, 1), r.randint(0, 1))
+            if which in ('H', 'W'): st = (r.pick([1, 2, 16]), r.pick([1, 2, 16]))
+            if which == 'kh': d['H'] = n + r.randint(0, 1); st = (1, 1)
+            if which == 'kw': d['W'] = n + r.randint(0, 1); st = (1, 1)
+            bias = r.chance(.7)
+            return ([L(r, (d['batch'], d['cin'], d['H'], d['W'])), L(r, (d['cout'], d['cin'], d['kh'], d['kw']))] + ([L(r, (d['cout'],))] if bias else []),
+                    [int(bias), P(st), P(pd), P((1, 1))])
+        return f
+    for w in ('batch', 'cin', 'cout', 'H', 'W', 'kh', 'kw'): out.append(('conv2d', w, c2(w)))
+    def p1(op, which):
+        def f(r, n):
+            d = {'batch': 1, 'channels': r.randint(1, 2), 'length': r.randint(2, 4), 'kernel': r.randint(1, 2)}; d[which] = n
+            s_ = r.randint(1, 2)
+            if which == 'length': d['kernel'] = r.pick([1, 2, 3, 16, 17]); s_ = r.pick([1, 2, d['kernel']])
+            if which == 'kernel': d['length'] = n + r.randint(0, 3); s_ = r.randint(1, 2)
+            sh = (d['batch'], d['channels'], d['length'])
+            return [L(r, sh, 'distinct' if op.startswith('max') else 'any')], [d['kernel'], s_, 0, 1]
+        return f
+    def p2(op, which):
+        def f(r, n):
+            d = {'batch': 1, 'channels': r.randint(1, 2), 'H': r.randint(2, 3), 'W': r.randint(2, 3)}; d[which] = n
+            k = (r.randint(1, 2), r.randint(1, 2)); st = (r.randint(1, 2), r.randint(1, 2))
+            sh = (d['batch'], d['channels'], d['H'], d['W'])
+            return [L(r, sh, 'distinct' if op.startswith('max') else 'any')], [P(k), P(st), P((0, 0)), P((1, 1))]
+        return f
+    for op in ('max_pool1d', 'avg_pool1d'):
+        for w in ('batch', 'channels', 'length', 'kernel'): out.append((op, w, p1(op, w)))
+    for op in ('max_pool2d', 'avg_pool2d'):
+        for w in ('batch', 'channels', 'H', 'W'): out.append((op, w, p2(op, w)))
+    def bn(which):
+        def f(r, n):
+            d = {'batch': r.randint(2, 3), 'channels': r.randint(1, 2), 'spatial': None}; d[which] = n
+            rest = () if d['spatial'] is None and r.chance(.5) else (d['spatial'] or r.randint(1, 2),)
+            c = d['channels']; sh = (d['batch'], c) + rest
+            hw, hb, tr, track = r.chance(.7), r.chance(.7), r.chance(.6), r.chance(.6)
+            leaves = [L(r, sh)] + ([L(r, (c,), 'pos')] if hw else []) + ([L(r, (c,))] if hb else [])
+            rm = show_floats([r.dyadic(-1, 1) for _ in range(c)]) if track else '-'
+            rv = show_floats([r.randint(2, 24) / 8 for _ in range(c)]) if track else '-'
+            return leaves, [int(hw), int(hb), int(tr), fbits(r.pick([1e-5, 1e-3])), rm, rv]
+        return f
+    for w in ('batch', 'channels', 'spatial'): out.append(('batch_norm', w, bn(w)))
+    def cls(op, which):
+        def f(r, n):
+            d = {'batch': r.randint(1, 3), 'classes': r.randint(2, 3)}; d[which] = n
+            labels = [r.randrange(d['classes']) for _ in range(d['batch'])]
+            if which == 'classes': labels[0] = r.pick([n - 1, n - 2, 0])
+            return [L(r, (d['batch'], d['classes'])), ((d['batch'],), [float(v) for v in labels], False, 'i64')], [P(labels)]
+        return f
+    for op in ('nll_loss', 'cross_entropy'):
+        for w in ('batch', 'classes'): out.append((op, w, cls(op, w)))
+    def pair(op, which):
+        def f(r, n):
+            sh = {'batch': (n, r.randint(1, 2)), 'features': (r.randint(1, 2), n), 'elements': (n,)}[which]
+            m = int(np.prod(sh))
+            if op == 'mse_loss': return [L(r, sh), L(r, sh)], []
+            if op == 'binary_cross_entropy': return [L(r, sh, 'prob'), (sh, [float(r.randint(0, 1)) for _ in range(m)], False)], []
+            return [L(r, sh), (sh, [float(r.randint(0, 1)) for _ in range(m)], False)], []
+        return f
+    for op in ('mse_loss', 'binary_cross_entropy', 'binary_cross_entropy_with_logits'):
+        for w in ('batch', 'features', 'elements'): out.append((op, w, pair(op, w)))
+    def sm(op, which):
+        def f(r, n):
+            sh = (n, r.randint(1, 2)) if which == 'softmax dim' else (r.randint(1, 2), n) if which == 'other dim' else (n,)
+            return [L(r, sh)], [0 if which != 'other dim' else r.pick([0, -2])]
+        return f
+    for op in ('softmax', 'log_softmax'):
+        for w in ('softmax dim', 'other dim', 'only dim'): out.append((op, w, sm(op, w)))
+    def act(op):
+        def f(r, n):
+            sh = r.pick([(n,), (n, 1), (1, n)])
+            return [(sh, G.nonkink(r, sh), True)], ([fbits(r.pick([0.01, 0.2]))] if op == 'leaky_relu' else [])
+        return f
+    for op in ('relu', 'leaky_relu', 'selu', 'tanh', 'sigmoid'): out.append((op, 'elements', act(op)))
+    def unf(which):
+        def f(r, n):
+            d = {'batch': 1, 'channels': r.randint(1, 2), 'H': r.randint(2, 3), 'W': r.randint(2, 3)}; d[which] = n
+            k = (r.randint(1, 2), r.randint(1, 2)); st = (r.randint(1, 2), r.randint(1, 2)); pd = (r.randint(0, 1), r.randint(0, 1))
+            return [L(r, (d['batch'], d['channels'], d['H'], d['W']))], [P(k), P((1, 1)), P(st), P(pd), fbits(0.0)]
+        return f
+    for w in ('batch', 'channels', 'H', 'W'): out.append(('unfold', w, unf(w)))
+    def fol(which):
+        def f(r, n):
+            d = {'batch': 1, 'channels': r.randint(1, 2), 'H': r.randint(2, 3), 'W': r.randint(2, 3)}; d[which] = n
+            k = (r.randint(1, 2), r.randint(1, 2)); st = (r.randint(1, 2), r.randint(1, 2)); pd = (r.randint(0, 1), r.randint(0, 1))
+            lh = (d['H'] + 2 * pd[0] - k[0]) // st[0] + 1; lw = (d['W'] + 2 * pd[1] - k[1]) // st[1] + 1
+            return [L(r, (d['batch'], d['channels'] * k[0] * k[1], lh * lw))], [P((d['H'], d['W'])), P(k), P((1, 1)), P(st), P(pd)]
+        return f
+    for w in ('batch', 'channels', 'H', 'W'): out.append(('fold', w, fol(w)))
+    return out
+
+
+def size_cases(rng, tier):
+    """quick: per (op, extent) one drawn power of two p with the three sizes p - 1, p, p + 1; thorough: every size of SIZE_ALL, three times"""
+    out = []
+    for op, which, f in size_slots():
+        sizes = [n for p in [rng.pick(SIZE_BASES)] for n in (p - 1, p, p + 1)] if tier == 'quick' else SIZE_ALL
+        for n in sizes:
+            c = base.finish(base.build(rng, op, False, gen=lambda r, o, m, f=f, n=n: f(r, n)), rng)
+            c['size'] = {'op': op, 'extent': which, 'n': n}
+            out.append(c)
+    return out
+
+
 FORMULA_THEOREMS = ['src_relu_vjp', 'src_relu_subgradient_at_kink', 'src_leaky_relu_vjp', 'src_selu_vjp', 'src_tanh_vjp', 'src_sigmoid_vjp', 'src_mse_vjp',
                     'src_bce_vjp', 'src_bce_logits_vjp_within_eps', 'model_applies_src_relu', 'model_applies_src_leaky_relu', 'model_applies_src_selu',
                     'model_applies_src_tanh', 'model_applies_src_sigmoid', 'model_applies_src_mse', 'model_scalars_are_src_bce']
@@ -421,6 +558,8 @@ def cases(rng, tier):
     Ln = rng.randint(300, 330)
     big.append(('max_pool1d', (1, 1, Ln), [Ln, 1, 0, 1]))
     big.append(('max_pool2d', (1, 1, 17, 17), [show_ints((17, 17)), show_ints((1, 1)), show_ints((0, 0)), show_ints((1, 1))]))
+    # every extent of every nn op just below / at / just above a power of two, the other extents at 1-2
+    out += size_cases(rng, tier)
     for op_, sh_, args_ in big:
         n_ = int(np.prod(sh_))
         data_ = [float(v) / 8 for v in range(-n_ // 2, -n_ // 2 + n_)]                      # ascending in row-major order
@@ -461,6 +600,12 @@ def distribution(cases):
         q[m['mask']] = q.get(m['mask'], 0) + 1
     for k, q in per.items():
         d[k] = ' '.join(f'{m}={n}' for m, n in sorted(q.items()))
+    for c in cases:
+        z = c.get('size')
+        if z:
+            k = f"size thresholds/{z['op']}: extent `{z['extent']}` at"
+            d[k] = (d.get(k, '') + f" {z['n']}{'(rejected)' if c['nout'] == 0 else ''}").strip()
+    d['size thresholds: cases'] = sum(1 for c in cases if c.get('size'))
     ru = [c for c in cases if c.get('reuse')]
     if ru:
         from props import c03
